@@ -212,6 +212,7 @@ class Oracle:
         self.n = 0
         self.budget = Budget(ctx)
         self.baseline = {}          # class -> what a fresh default-constructed instance encodes to (bytes, or the exception name)
+        self.corpus, self.corpus_keys, self.helper_ref = [], set(), None     # reference corpus (recorded at the start of the run)
 
     # -- state shared BETWEEN instances / calls (class attributes, mutable default arguments, module-level caches)
     def default_encoding(self, cls):
@@ -221,6 +222,73 @@ class Oracle:
             return 'ctor:' + type(e).__name__
         w, exc = impl_write_exc(x, 14)
         return w if w is not None else 'write:' + (exc or '').split(':')[0]
+
+    # -- process-global state in codec HELPERS (module-level tables / memos in enums.py, utils.py, the factories):
+    #    a fixed reference corpus must decode to the same values at the start of the run, after every batch of odd
+    #    inputs, and at the end of the run
+    def fingerprint(self, cls, v, bs):
+        """what the reference bytes decode to: repr of the value and its re-encoding under this version, 1.2 and 2.0
+        (each from a fresh decoding; the 2.0 bytes can stay right while the decoded names differ and encode differently under 1.x)"""
+        import re as _re
+        out = []
+        for v2 in sorted({v, 12, 20}):
+            obj, rest = impl_read(cls, bs, v)
+            if obj is None:
+                return ('refused', rest)
+            if not out:
+                out.append(_re.sub(r' at 0x[0-9a-f]+', '', repr(obj))[:3000])
+            w = impl_write(obj, v2)
+            out.append((v2, w.hex() if w is not None else None))
+        return tuple(out)
+
+    def helper_fingerprint(self):
+        enums, _ = kmip()
+        out = []
+        for name, tag in enums.attribute_name_tag_table:
+            try:
+                out.append((name, enums.convert_attribute_name_to_tag(name).value, enums.convert_attribute_tag_to_name(tag)))
+            except Exception as e:
+                out.append((name, type(e).__name__))
+        return tuple(out)
+
+    def corpus_add(self, cname, cls, v, bs):
+        per_class = sum(1 for e in self.corpus if e[0] == cname)
+        if per_class < 12 and len(self.corpus) < 800 and (cname, v, bs) not in self.corpus_keys:      # a few values of EVERY class
+            self.corpus_keys.add((cname, v, bs))
+            self.corpus.append([cname, cls, v, bs, self.fingerprint(cls, v, bs)])
+
+    def recheck_corpus(self, since, odd=None):
+        """-> True when every reference value still decodes as it did when it was recorded"""
+        if self.budget.stopped and 'state shared' in self.budget.stopped:
+            return True
+        if self.helper_ref is None:
+            self.helper_ref = self.helper_fingerprint()
+        ok = True
+        for cname, cls, v, bs, fp in self.corpus:
+            now = self.fingerprint(cls, v, bs)
+            if now != fp:
+                self.fail(cname, v, 'reference-corpus-changed', bs,
+                          {'steps': ['a = decode(reference bytes) in a fresh state: value and re-encodings recorded', since,
+                                     'b = decode(the same reference bytes): value or re-encodings differ'],
+                           'odd_input': odd, 'reference_class': cname,
+                           'before': [list(x) if isinstance(x, tuple) else x for x in fp][:4],
+                           'after': [list(x) if isinstance(x, tuple) else x for x in now][:4]},
+                          {'reference_class': cname})
+                ok = False
+                break
+        now = self.helper_fingerprint()
+        if now != self.helper_ref:
+            diff = [(a, b) for a, b in zip(self.helper_ref, now) if a != b][:3]
+            self.fail('enums.attribute_name_tag_table', 0, 'reference-corpus-changed', 'convert_attribute_name_to_tag / convert_attribute_tag_to_name over the whole table',
+                      {'steps': ['record name -> tag -> name for every table entry', since, 'the same conversions now answer differently'],
+                       'odd_input': odd, 'changed_entries': [{'before': list(a), 'after': list(b)} for a, b in diff]},
+                      {'reference_class': 'enums.name<->tag'})
+            ok = False
+        if not ok:
+            self.contaminated('reference values / the attribute name <-> tag conversions no longer answer as at the start of the run')
+            return False
+        self.ctx.count('oracle.corpus.rechecked')
+        return True
 
     def contaminated(self, why):
         """state leaks between instances: every later observation in this process is unreliable (and encodings may grow
@@ -379,6 +447,7 @@ class Oracle:
         self.n += 1
         c.count('oracle.constructed.checked')
         c.case_seen(('constructed', cname, v, w), nontrivial=True)
+        self.corpus_add(cname, cls, v, w)
         witness = {'built': how, 'encoded': w.hex()}
         back, r = impl_read(cls, w, v)
         if back is None or r != b'':
@@ -1173,6 +1242,64 @@ def constructed_objects(ctx, oracle):
                                       'classes': sorted({e[0] for e in out})}
 
 
+ODD_NAMES = ['cryptographic algorithm', 'CRYPTOGRAPHIC ALGORITHM', 'Cryptographic algorithm', 'cRYPTOGRAPHIC aLGORITHM', 'name', 'NAME', 'state',
+             ' Cryptographic Algorithm', 'Cryptographic Algorithm ', 'Cryptographic  Algorithm', 'Cryptographic.Algorithm', 'CRYPTOGRAPHIC_ALGORITHM',
+             'Object Type\x00', '', ' ', 'No Such Attribute', 'x-custom', 'X-custom', 'x-', 'x-Cryptographic Algorithm', 'Unique identifier', 'unique Identifier']
+
+
+def apply_odd_name(name):
+    """Everything a caller / peer can do with an attribute NAME: direct conversion, the name-carrying payloads under 2.0 and
+    1.x, an Attribute structure decoded with that name, the TemplateAttribute -> Attributes conversion.  Each step may be
+    refused (most are, on the reference tree); none may change what later conversions return."""
+    enums, utils = kmip()
+    from kmip.core import objects, primitives
+    from kmip.core.messages import payloads
+    done = []
+
+    def attempt(label, fn):
+        try:
+            fn()
+            done.append(label + ': ok')
+        except Exception as e:
+            done.append(label + ': ' + type(e).__name__)
+    attempt('convert_attribute_name_to_tag(%r)' % name, lambda: enums.convert_attribute_name_to_tag(name))
+    for v in (20, 14):
+        attempt('GetAttributesRequestPayload("1", [%r]).write under %d' % (name, v),
+                lambda v=v: impl_write_exc(payloads.GetAttributesRequestPayload('1', [name]), v)[0] or (_ for _ in ()).throw(ValueError('refused')))
+        attempt('GetAttributeListResponsePayload("1", [%r]).write under %d' % (name, v),
+                lambda v=v: impl_write_exc(payloads.GetAttributeListResponsePayload('1', [name]), v)[0] or (_ for _ in ()).throw(ValueError('refused')))
+    # an Attribute structure carrying that name with an enumeration value (Cryptographic Algorithm = AES) and with a text value
+    for val in (sg.enc_prim(0x42000b, 'PEnum', 3), sg.enc_prim(0x42000b, 'PText', 'v')):
+        body = sg.enc_prim(0x42000a, 'PText', name) + val
+        abytes = sg.hdr(0x420008, 1, len(body)) + body
+        attempt('Attribute.read(name=%r)' % name, lambda: impl_read(objects.Attribute, abytes, 12)[0] or (_ for _ in ()).throw(ValueError('refused')))
+        tbody = sg.enc_prim(0x420057, 'PEnum', 2) + sg.hdr(0x420091, 1, len(abytes)) + abytes
+        cbytes = sg.hdr(0x420079, 1, len(tbody)) + tbody
+
+        def create_roundtrip():
+            p, _ = impl_read(payloads.CreateRequestPayload, cbytes, 12)
+            if p is None:
+                raise ValueError('refused')
+            if impl_write(p, 20) is None:
+                raise ValueError('2.0 encoding refused')
+        attempt('CreateRequestPayload decoded under 1.2 with that attribute name, encoded under 2.0', create_roundtrip)
+    return done
+
+
+def odd_inputs(ctx, oracle):
+    """odd attribute names, each followed by a re-check of the reference corpus"""
+    if not oracle.recheck_corpus('nothing but the constructed objects has been processed yet'):
+        return
+    for name in ODD_NAMES:
+        if oracle.budget.stop('the odd attribute names'):
+            return
+        done = apply_odd_name(name)
+        for d in done:
+            ctx.count('odd-name.%s' % d.rsplit(': ', 1)[1])
+        if not oracle.recheck_corpus('then, in the same process: ' + '; '.join(done), odd={'attribute_name': name}):
+            return
+
+
 def budget_verdict(ctx, oracle):
     """Generation that had to be cut short for lack of time, without any finding, is not a pass: part of the input space
     this check claims to cover was not visited."""
@@ -1216,6 +1343,7 @@ def run(ctx):
         oracle.take_baseline()
         probes(ctx, oracle)
         constructed_objects(ctx, oracle)
+        odd_inputs(ctx, oracle)
 
     header = HEADER
     if not ok_regen:
@@ -1307,6 +1435,9 @@ def run(ctx):
     with watchdog(oracle.budget, hard, 'the harvested encodings'):
         harvested_oracle(ctx, oracle, t_classes)
     ctx.cov['oracle_objects_checked'] = oracle.n
+    with watchdog(oracle.budget, hard, 'the final re-check of the reference corpus'):
+        oracle.recheck_corpus('then the structure generator, its mutated encodings and the harvested encodings were processed in the same process')
+    ctx.cov['reference_corpus'] = {'values': len(oracle.corpus), 'rechecks': ctx.dist.get('oracle.corpus.rechecked', 0)}
     budget_verdict(ctx, oracle)
     ctx.cov['trusted_extra'] = [
         'translate/gen_schemas.py (ast walk of read()/write(); constructor expressions evaluated in the defining module)',
@@ -1324,12 +1455,27 @@ def replay(ctx, payload):
     detail = inp.get('detail') if isinstance(inp.get('detail'), dict) else {}
     hexes = [h for h in (detail.get('encoded'), inp.get('input_hex'), inp.get('encoded')) if isinstance(h, str)]
     cls = next((c for _, n, c, _ in all_struct_classes() if n == cname), None)
-    if cls is None or not hexes or v not in sg.VERSIONS:
+    if (payload.get('signature') or {}).get('check') == 'reference-corpus-changed' and (cls is not None or cname == 'enums.attribute_name_tag_table'):
+        pass
+    elif cls is None or not hexes or v not in sg.VERSIONS:
         print('replay: nothing replayable in this file (class %r, version %r)' % (cname, v))
         return 2
     oracle = Oracle(ctx)
     oracle.take_baseline()          # two-step findings: what fresh default instances encode to BEFORE the recorded input is decoded
     rc = 0
+    if (payload.get('signature') or {}).get('check') == 'reference-corpus-changed':
+        # step 1: the reference value in a fresh process; step 2: the recorded odd input; step 3: the reference value again
+        odd = (detail.get('odd_input') or {}).get('attribute_name')
+        if odd is None:
+            print('replay: the change was noticed at the end of the run, no single odd input was recorded')
+            return 2
+        helper = cname == 'enums.attribute_name_tag_table'
+        before = oracle.helper_fingerprint() if helper else oracle.fingerprint(cls, v, bytes.fromhex(inp['input_hex']))
+        steps = apply_odd_name(odd)
+        after = oracle.helper_fingerprint() if helper else oracle.fingerprint(cls, v, bytes.fromhex(inp['input_hex']))
+        print('replay: reference %s recorded; then %s; reference %s' % (cname, '; '.join(steps)[:600], 'DIFFERS' if before != after else 'unchanged'))
+        print('replay: %s' % ('the violation reproduces' if before != after else 'the violation does not reproduce on this tree'))
+        return 1 if before != after else 0
     for h in hexes:
         try:
             bs = bytes.fromhex(h)
